@@ -7,6 +7,7 @@
 #endif
 #include "iora_xml.h"
 #include "../xml_entities/contracts.h"
+#include "contracts.h"
 /* ent == "lt" etc. (string_view == const char*): same length and same bytes; literals of at most 4 bytes (asserted) */
 static inline bool xsv_eq_lit(iora_sv a, iora_sv lit)
 {
